@@ -163,7 +163,7 @@ func c10Query(t *rapid.T, cmds []database.Command) string {
 	case 1:
 		return string(rapid.SliceOfN(rapid.Byte(), 0, 30).Draw(t, "qbytes"))
 	case 2:
-		return rapid.SampledFrom([]string{"", " ", "\x00", "a\x00", "a", "ab", "\xff\xfe", strings.Repeat("a ", 500), strings.Repeat("find ", 200), "the to a", "k̇", "K", "ab\x00cd"}).Draw(t, "qh")
+		return rapid.SampledFrom([]string{"", " ", "\x00", "a\x00", "a", "ab", "\xff\xfe", strings.Repeat("a ", 500), strings.Repeat("find ", 200), "the to a", "k̇", "K", "ab\x00cd", "kkk", "k", "\u212a\u212a", "ss", "i", "aa", "find"}).Draw(t, "qh")
 	default:
 		if len(cmds) > 0 {
 			q, _ := gen.Query(t, cmds, nil)
